@@ -314,6 +314,9 @@ func runShard(b *build, prop, tier string, seed int64, shard, nshards int, a *ag
 		if b.race {
 			stall = 900 * time.Second
 		}
+		if v, err := strconv.Atoi(os.Getenv("VCHECK_STALL_S")); err == nil && v > 0 {
+			stall = time.Duration(v) * time.Second // mutant runs: a hanging change need not be waited for that long
+		}
 		var werr error
 		watchdogFired := false
 	wait:
